@@ -196,9 +196,23 @@ def _listdir(path="."):
     return sorted(names, key=lambda n: hashlib.blake2b(f"{w.listdir_seed}:{n}".encode(), digest_size=8).digest())
 
 
+def _interrupt_main(signum=SIGINT):
+    # _thread.interrupt_main(): "simulate the effect of a signal arriving in the main thread" - of the calling
+    # *simulated* process, never of the checker itself
+    t = _cur_task()
+    if t is None or t.proc is None:
+        return _real["interrupt_main"](signum)
+    w = WORLD
+    w.sched.switch("interrupt_main", "")
+    w.signal(t.proc, signum, by=t)
+    w.sched.switch("kill-ret", "")
+
+
 def install_os_wrappers():
     if _real:
         return
+    _real["interrupt_main"] = _thread.interrupt_main
+    _thread.interrupt_main = _interrupt_main
     _real["listdir"] = os.listdir
     os.listdir = _listdir
     _real["kill"] = os.kill
